@@ -24,6 +24,32 @@ from crosshair.statespace import CallAnalysis, RootNode, StateSpace, StateSpaceC
 from crosshair.tracers import COMPOSITE_TRACER, ResumedTracing
 from crosshair.util import IgnoreAttempt, UnexploredPath
 
+# --- two performance adjustments of CrossHair's patch table (documented in DESIGN.md section 2.1) -------------
+# (1) CrossHair patches weakref.ref.__call__ to run a full gc.collect() on every dereference (WeakSet callbacks
+#     of asyncio/abc dereference weakrefs constantly: 38% of the run time).  We drop that patch, switch the
+#     cyclic collector off while a path is traced and collect between paths (every 16 paths).  A resulting nondeterminism would surface as
+#     NotDeterministic -> shard HARNESS-ERROR, never as a verdict.
+# (2) format() of exactly-typed concrete atoms (str/int/bool/float/None/classes) skips deep_realize.
+import gc as _gc
+import weakref as _weakref
+
+from crosshair import core as _chcore
+
+_chcore._PATCH_REGISTRATIONS.pop(_weakref.ref.__call__, None)
+_orig_format_patch = _chcore._PATCH_REGISTRATIONS.get(format)
+_ATOMS = (str, int, bool, float, type(None))
+
+
+def _fast_format(obj, format_spec=''):
+    with NoTracing():
+        if (type(obj) in _ATOMS or type(obj) is type) and type(format_spec) is str:
+            return format(obj, format_spec)
+    return _orig_format_patch(obj, format_spec)
+
+
+if _orig_format_patch is not None:
+    _chcore._PATCH_REGISTRATIONS[format] = _fast_format
+
 SOLVER = dict(calls=0, t=0.0)
 _orig_check = z3.Solver.check
 
@@ -108,11 +134,14 @@ def explore(
     s0 = dict(SOLVER)
     start = process_time()
     w0 = time.time()
+    _gc.disable()
     with condition_parser([AnalysisKind.PEP316]), Patched():
         while process_time() - start < budget_s:
             t = process_time()
             space = StateSpace(execution_deadline=t + per_path_s, model_check_timeout=per_path_s / 2, search_root=root)
             NOTES.reset()
+            if st['paths'] % 16 == 0:
+                _gc.collect()  # cyclic GC only here, between paths: never in the middle of a traced path
             with COMPOSITE_TRACER, NoTracing(), StateSpaceContext(space):
                 try:
                     pre_args = gen_args(sig)
@@ -162,6 +191,7 @@ def explore(
             if exhausted:
                 st['exhausted'] = True
                 break
+    _gc.enable()
     st['wall_s'] = round(time.time() - w0, 3)
     st['cpu_s'] = round(process_time() - start, 3)
     st['solver_queries'] = SOLVER['calls'] - s0['calls']
